@@ -80,6 +80,8 @@ type pcase struct {
 	// GCFault: the first plain Update of a composed resource in the reconcile under test (the
 	// collector's label clean-up before a delete) fails with this outcome
 	GCFault string `json:"gcFault,omitempty"`
+	// GCFaultVerb: "" = that Update; "delete" = the first DELETE of a composed resource fails instead
+	GCFaultVerb string `json:"gcFaultVerb,omitempty"`
 	// Bodiless: the last step leaves this (still desired, previously composed) name in the desired
 	// map with NO resource body - only its readiness - as function SDKs do that create an entry on
 	// first access. Whatever the reconcile makes of such an entry, the name IS in the final desired
@@ -176,6 +178,9 @@ func genCase(c *kit.Ctx, i int) pcase {
 	p.BehindCache = r.IntN(4) == 0
 	if failAt < 0 && !p.ObserveErr && r.IntN(3) == 0 {
 		p.GCFault = []string{"conflict", "unavailable", "servererror"}[r.IntN(3)]
+		if c.Rng("gcverb", i).IntN(2) == 0 {
+			p.GCFaultVerb = "delete"
+		}
 	}
 	for st := 0; st < ns; st++ {
 		if r.IntN(4) == 0 {
@@ -541,8 +546,12 @@ func (w *worker) runCase(i int, name string) {
 	if p.GCFault != "" {
 		done := false
 		out := map[string]sim.Outcome{"conflict": sim.Conflict, "unavailable": sim.Unavailable, "servererror": sim.ServerError}[p.GCFault]
+		gcVerb := "update"
+		if p.GCFaultVerb != "" {
+			gcVerb = p.GCFaultVerb
+		}
 		ff := func(_ int, verb string, k sim.Key) sim.Outcome {
-			if !done && verb == "update" && isComposedKind(k) {
+			if !done && verb == gcVerb && isComposedKind(k) {
 				done = true
 				return out
 			}
@@ -574,6 +583,10 @@ func (w *worker) runCase(i int, name string) {
 
 	var writes, deletes []string
 	deletedNames := map[string]bool{}
+	nameOfKey := map[sim.Key]string{}
+	for n, k := range byName {
+		nameOfKey[k] = n
+	}
 	for _, e := range log {
 		if !isComposedKind(e.Key) || !e.IsWrite() || e.DryRun {
 			continue
@@ -584,6 +597,8 @@ func (w *worker) runCase(i int, name string) {
 			if e.Before != nil {
 				ann, _, _ := unstructured.NestedStringMap(e.Before, "metadata", "annotations")
 				deletedNames[ann[annResName]] = true
+			} else if n, ok := nameOfKey[e.Key]; ok {
+				deletedNames[n] = true // e.g. a delete that was refused by an injected fault
 			} else {
 				deletedNames["?"+e.Key.Name] = true
 			}
@@ -670,12 +685,66 @@ func (w *worker) runCase(i int, name string) {
 				c.Count("steady_state_reconciles", 1)
 			}
 		}
+		// a transient fault in the collector must not make the XR forget what it still has to
+		// collect: once the fault is gone and a reconcile composes successfully with the same
+		// pipeline output, everything this XR had composed that is absent from the desired state
+		// is deleted (gone or terminating) - otherwise it is leaked for good.
+		if p.GCFault != "" && !(rerr == nil && succeeded) {
+			c.Count("gc_fault_failed_reconcile", 1)
+			later := false
+			for again := 1; again <= 3 && !later; again++ {
+				w.mu.Lock()
+				for k := range w.rnd {
+					w.rnd[k] = 0
+				}
+				w.mu.Unlock()
+				sf := world.LogLen()
+				_, e2, _ := env.Reconcile("xr1")
+				later = e2 == nil && syncedTrue(world.Log(sf), xrKey)
+			}
+			if later {
+				c.Count("gc_fault_recovered", 1)
+				for n := range want {
+					o := world.GetObj(byName[n])
+					if o == nil {
+						continue
+					}
+					if ts, _, _ := unstructured.NestedString(o, "metadata", "deletionTimestamp"); ts != "" {
+						continue
+					}
+					c.Violate("undesired-leaked-after-gc-fault", name, fmt.Sprintf("a %s on the collector's %s failed one reconcile; after later reconciles composed successfully %q (composed by this XR, absent from the desired state) is still alive and spec.resourceRefs is %v", p.GCFault, gcVerbOf(&p), n, refsOf(world.GetObj(xrKey))), witness())
+				}
+			}
+		}
 	}
 	nontrivial := existedBefore >= 1 && (!fail || failStep != 0 || p.ObserveErr)
 	c.Eval(kit.JSON(p), nontrivial)
 	if c.WantSample() && nontrivial && fail {
 		c.Sample(witness())
 	}
+}
+
+func gcVerbOf(p *pcase) string {
+	if p.GCFaultVerb != "" {
+		return p.GCFaultVerb
+	}
+	return "update"
+}
+
+// syncedTrue reports whether the last successful status write of the XR in log says Synced=True.
+func syncedTrue(log []sim.Event, xrKey sim.Key) bool {
+	ok := false
+	for _, e := range log {
+		if e.Key == xrKey && e.Sub == "status" && e.IsWrite() && e.Err == "" && e.After != nil {
+			conds, _, _ := unstructured.NestedSlice(e.After, "status", "conditions")
+			for _, cd := range conds {
+				if m, isMap := cd.(map[string]any); isMap && m["type"] == "Synced" {
+					ok = m["status"] == "True"
+				}
+			}
+		}
+	}
+	return ok
 }
 
 func keys(m map[string]bool) []string {
